@@ -160,7 +160,7 @@ reg("C14",
                             P.gen_commit_programs(G.Rng(seed + 15), N(tier, 40, 400)) +
                             P.gen_size_matrix(G.Rng(seed + 142))),
     monitors=[lambda rr: (P.mon_abandon(rr) if "base" in rr.prog.tags else
-                          P.mon_size_matrix(rr) if "matrix" in rr.prog.tags else P.mon_commit(rr))],
+                          P.mon_size_matrix(rr) if "matrix" in rr.prog.tags else P.mon_commit(rr, readable=False))],
     extra=lambda seed, tier, flavours: merge(
         LG.leg_fault_injection(LG.fault_cases_writes(G.Rng(seed + 141)), flavours[0], tier),
         LG.leg_writer_faults(flavours[0], tier)),
